@@ -40,8 +40,19 @@ for name in sorted(os.listdir(sd)):
     json.dump(meta, open(os.path.join(d, "meta.json"), "w"), indent=1)
     rows.append((name, prop, meta.get("summary", "")[:110], ", ".join(f"{k}:{'CAUGHT' if v.get('exit')==1 else 'missed' if v.get('exit')==0 else 'error'}" for k, v in det.items())))
     print(name, det, flush=True)
-if not names:
-    with open(os.path.join(sd, "SUMMARY.md"), "w") as f:
-        f.write("| seeded change | property | what it does | checks (quick tier) |\n|---|---|---|---|\n")
-        for r in rows:
-            f.write("| %s | %s | %s | %s |\n" % r)
+# the summary is always rebuilt from what every meta.json records (a partial run only refreshes the named ones)
+rows = []
+for name in sorted(os.listdir(sd)):
+    mp = os.path.join(sd, name, "meta.json")
+    if not os.path.isfile(mp):
+        continue
+    meta = json.load(open(mp))
+    det = meta.get("detection", {})
+    cell = ", ".join(f"{k}:{'CAUGHT' if v.get('exit')==1 else 'missed' if v.get('exit')==0 else 'error'}" for k, v in det.items())
+    if meta.get("status_on_current_tree"):
+        cell += " (see meta.json: " + meta["status_on_current_tree"].split(":")[0] + " on the current tree)"
+    rows.append((name, meta["property"], meta.get("summary", "")[:110].replace("|", "/"), cell))
+with open(os.path.join(sd, "SUMMARY.md"), "w") as f:
+    f.write("| seeded change | property | what it does | checks (quick tier) |\n|---|---|---|---|\n")
+    for r in rows:
+        f.write("| %s | %s | %s | %s |\n" % r)
